@@ -203,6 +203,8 @@ class U:
                     self.struct_names.add(name)
             else:
                 src, kind = self.enum(name)
+            if r.random() < 0.3:
+                src = "/// Documentation of %s.\n" % name + src
             self.defs.append((name, src))
             self.names.append(name)
             kinds[name] = kind
@@ -222,6 +224,8 @@ FORCED = [
     ("ForcedTupleStructs", DERIVE + "\npub struct ForcedTupleStructs(pub (u8,), pub Box<ForcedUnit>, pub Option<Box<ForcedTupleStructs>>);\n" + DERIVE + "\npub struct ForcedUnit;\n", "tuple_struct"),
     ("ForcedInternalOneMember", DERIVE + "\n#[serde(tag = \"kind\")]\npub enum ForcedInternalOneMember {\n    Point,\n    Label { text: Option<String> },\n    Note { #[serde(default)] text: String },\n}\n", "enum_internal"),
     ("ForcedInternalSameMember", DERIVE + "\n#[serde(tag = \"t\", rename_all = \"snake_case\")]\npub enum ForcedInternalSameMember {\n    A { value: u8 },\n    B { value: Option<u8> },\n    CUnit,\n}\n", "enum_internal"),
+    ("ForcedDocRecursive", "/// A documented, self-referential type (schemars records the comment as `description` on the root).\n" + DERIVE + "\npub struct ForcedDocRecursive {\n    /// the children\n    pub children: Vec<ForcedDocRecursive>,\n    /// a name\n    #[serde(default)]\n    pub name: String,\n    pub parent: Option<Box<ForcedDocRecursive>>,\n}\n", "struct"),
+    ("ForcedDocEnum", "/// Documented enum.\n" + DERIVE + "\n#[serde(tag = \"k\")]\npub enum ForcedDocEnum {\n    /// leaf\n    Leaf { /// payload\n v: u8 },\n    /// node\n    Node { kids: Vec<ForcedDocEnum> },\n}\n", "enum_internal"),
     ("ForcedFloatMaps", DERIVE + "\n#[serde(rename_all = \"SCREAMING-KEBAB-CASE\")]\npub struct ForcedFloatMaps {\n    pub float_map: ::std::collections::HashMap<String, f32>,\n    pub set_of: ::std::collections::BTreeSet<i64>,\n    #[serde(rename = \"type\")]\n    pub type_: u64,\n}\n", "struct"),
 ]
 
